@@ -23,7 +23,7 @@ func init() {
 		},
 	}, map[string]propSpec{
 		"C07": {level: "exploration", quickS: 45, thoroughS: 780,
-			probes: []string{"prefix_cache_hit", "fork", "shift_ok", "shift_fallback", "prompt_truncated", "differential_checked", "multi_seq_batch", "cancel_midstream"}},
+			probes: []string{"prefix_cache_hit", "fork", "shift_ok", "shift_fallback", "prompt_truncated", "differential_checked", "multi_seq_batch", "cancel_midstream", "image_row_forwarded", "same_batch_group_whole"}},
 		"C14": {level: "exploration", quickS: 45, thoroughS: 780,
 			probes: []string{"stop_hit", "stop_split_across_pieces", "utf8_split_withheld", "eos", "limit", "stop_truncated_token", "cancel_midstream"}},
 	})
